@@ -1755,8 +1755,44 @@ class C12(Check):
             else:
                 out.append(("X", "rules=%d parsed=%d" % (len(rules), len(parsed)), "parse_rules_lines finds another number of rules"))
         out += self._clause_requests(wntr, wn, rules)
+        out += self._writer_requests(wntr, rules)
         out += self._format_requests(sp)
         return [(a, b, "%s: %s" % (label, c)) for a, b, c in out]
+
+    def _writer_requests(self, wntr, rules):
+        """the premises the INP writer produces for the ORIGINAL condition tree (AND of OR-groups since e0050eda) and the
+        in-order text of `str(condition)` (dictionary path), against the model's `flattenCnf` / `flatten`"""
+        C = wntr.network.controls
+        io_ = wntr.epanet.io
+        U = wntr.epanet.util
+        out = []
+        for n, c in rules:
+            atoms = []
+
+            def pre(t):
+                if isinstance(t, C.AndCondition):
+                    return ["&"] + pre(t._condition_1) + pre(t._condition_2)
+                if isinstance(t, C.OrCondition):
+                    return ["|"] + pre(t._condition_1) + pre(t._condition_2)
+                atoms.append(t)
+                return ["a"]
+            words = pre(c._condition)
+
+            def text(a):
+                r0 = io_._EpanetRule("x", U.FlowUnits.LPS, U.MassUnits.mg)
+                r0.add_control_condition(a)
+                return " ".join(r0._if_clauses[0].split()[1:])
+            texts = [text(a) for a in atoms]
+            tid = [texts.index(t) for t in texts]
+            r = io_._EpanetRule("x", U.FlowUnits.LPS, U.MassUnits.mg)
+            r.add_control_condition(c._condition)
+            written = []
+            for cl in r._if_clauses:
+                w = cl.split()
+                written.append("%s:%d" % (w[0].lower(), texts.index(" ".join(w[1:]))))
+            inorder = ["if"] + [w.lower() for w in str(c._condition).split() if w in ("AND", "OR")]
+            out.append(("D " + " ".join(words), (" ".join(written), " ".join(inorder), tid), "premises written for rule %s" % n))
+        return out
 
     def _clause_requests(self, wntr, wn, rules):
         """every premise WNTR writes, tokenised, read by the model's `parseAtom` against `generate_control`; every simple
@@ -1854,14 +1890,28 @@ class C12(Check):
         broken = []
         if not reqs:
             return broken
-        uniq = list(dict.fromkeys(reqs))
+        uniq = []
+        seen = set()
+        for r in reqs:
+            k = (r[0], repr(r[1]), r[2])
+            if k not in seen:
+                seen.add(k)
+                uniq.append(r)
         out = vlib.lean_run("Drivers/InpDriver.lean", "\n".join(r[0] for r in uniq) + "\n")
         if len(out) != len(uniq):
             raise vlib.Infra("InpDriver returned %d lines for %d requests" % (len(out), len(uniq)))
         nmis = 0
         for (req, exp, desc), got in zip(uniq, out):
             kind = req[:1]
-            ok = got == exp or (exp.endswith(" *") and got.startswith(exp[:-1]))
+            if kind == "D":
+                # the model numbers the atoms in tree order; atoms with the same text are the same premise in the file
+                written, inorder, tid = exp
+                parts = got.split(" ; ")
+                m = " ".join("%s:%d" % (x.split(":")[0], tid[int(x.split(":")[1])]) for x in parts[0].split()) if len(parts) == 2 else got
+                ok = len(parts) == 2 and m == written and " ".join(x.split(":")[0] for x in parts[1].split()) == inorder
+                exp = "%s ; %s" % (written, inorder)
+            else:
+                ok = got == exp or (exp.endswith(" *") and got.startswith(exp[:-1]))
             ctx.count("text-model-vs-impl:%s:%s" % (kind, "agree" if ok else "disagree"))
             if not ok and nmis < 6:
                 nmis += 1
